@@ -10,6 +10,7 @@
 import CC.Properties.C07
 import CC.Proofs.NetBasics
 import CC.Proofs.GQField
+import CC.Gen.Solution
 namespace CC
 open Gen
 
@@ -173,9 +174,10 @@ frequency, rated power, rated voltage -/
 def namedParams : List String := ["R", "G", "C", "L", "w", "P", "V_ref"]
 
 def hasSignGuard (s : CtorSpec) (p : String) : Bool :=
-  s.guards.any fun g => g.param == p && g.cmp == Cmp.lt && g.bound == 0 && g.exc == "ValueError"
+  s.guards.any fun g => g.param == p && (g.cmp == Cmp.lt || g.cmp == Cmp.le) && g.bound == 0 && g.exc == "ValueError"
 
-/-- every constructor guards every named parameter it takes with `if p < 0: raise ValueError` -/
+/-- every constructor guards every named parameter it takes with `if p < 0: raise ValueError`
+(or the stricter `if p <= 0`) -/
 def C19_negative_table_statement : Prop :=
   ∀ s ∈ ctorSpecs, ∀ p ∈ s.params, p.1 ∈ namedParams → hasSignGuard s p.1 = true
 
@@ -184,9 +186,22 @@ nor `G`.) -/
 theorem C19_negative_table : C19_negative_table_statement := by
   unfold C19_negative_table_statement; decide
 
-/-- the only guards in the module are sign guards `< 0` raising `ValueError` -/
+/-- the only guards in the module are sign guards `< 0` or `<= 0` raising `ValueError` -/
 theorem C19_guards_are_sign_guards :
-    ∀ s ∈ ctorSpecs, ∀ g ∈ s.guards, g.cmp = Cmp.lt ∧ g.bound = 0 ∧ g.exc = "ValueError" := by decide
+    ∀ s ∈ ctorSpecs, ∀ g ∈ s.guards, (g.cmp = Cmp.lt ∨ g.cmp = Cmp.le) ∧ g.bound = 0 ∧ g.exc = "ValueError" := by decide
+
+/-- **C19 (rated voltage).**  A rated voltage must be positive: every constructor that takes
+`V_ref` (lamp, resistive_load) guards it with `if V_ref <= 0: raise ValueError` — a load with
+`V_ref = 0` has no finite admittance `P / V_ref²` and cannot be translated.  (Until fix e174570
+the guard was `< 0`: `V_ref = 0` was accepted and `elements.load` raised when the circuit was
+transformed.) -/
+theorem C19_rated_voltage_positive :
+    ∀ s ∈ ctorSpecs, ∀ p ∈ s.params, p.1 = "V_ref" → (⟨"V_ref", Cmp.le, 0, "ValueError"⟩ : Guard) ∈ s.guards := by
+  decide
+
+/-- … and `<= 0` is used for nothing else: for every other parameter the value 0 is legal -/
+theorem C19_only_rated_voltage_strict :
+    ∀ s ∈ ctorSpecs, ∀ g ∈ s.guards, g.cmp = Cmp.le → g.param = "V_ref" := by decide
 
 /-- **C19 (negative).**  A constructor call whose arguments bind, and in which some guard
 `if p <cmp> bound: raise` is met by the value of `p`, raises — whatever the other arguments,
@@ -229,27 +244,33 @@ theorem C19_negative_first (s : CtorSpec) (id : String) (nodes : List String) (a
   have he' : s.guards.forM (fun g => g.check env) = .error .valueError := this
   simp [he']
 
-/-- the sign guards let the boundary value through: when every guarded parameter is bound to a
-non-negative number, no guard fires -/
+/-- the sign guards let the boundary value through: when every parameter guarded by `< 0` is
+bound to a non-negative number (and the rated voltage, guarded by `<= 0`, to a positive one), no
+guard fires -/
 theorem C19_zero_passes_guards (s : CtorSpec) (hs : s ∈ ctorSpecs) (env : List (String × Val))
-    (h : ∀ g ∈ s.guards, ∃ q : Rat, env.lookup g.param = some (.num q) ∧ 0 ≤ q) :
+    (h : ∀ g ∈ s.guards, ∃ q : Rat, env.lookup g.param = some (.num q) ∧ 0 ≤ q ∧ (g.cmp = Cmp.le → 0 < q)) :
     forM s.guards (fun g : Guard => g.check env) = (Except.ok () : Except Err Unit) := by
   apply forM_ok_of_forall
   intro g hg
-  obtain ⟨q, hq, hpos⟩ := h g hg
+  obtain ⟨q, hq, hpos, hstrict⟩ := h g hg
   obtain ⟨hc, hb, _⟩ := C19_guards_are_sign_guards s hs g hg
-  have : ¬ q < 0 := by grind
-  simp [Guard.check, hq, hc, hb, Cmp.holds, this]
+  rcases hc with hc | hc
+  · have : ¬ q < 0 := by grind
+    simp [Guard.check, hq, hc, hb, Cmp.holds, this]
+  · have := hstrict hc
+    have : ¬ q ≤ 0 := by grind
+    simp [Guard.check, hq, hc, hb, Cmp.holds, this]
 
-/-- arguments that set every real parameter to 0 (complex ones to 0, wavetype to "cos") -/
+/-- arguments that set every real parameter to 0 — except the rated voltage, set to 1 —
+(complex ones to 0, wavetype to "cos") -/
 def zeroArgs (s : CtorSpec) : List (String × Val) :=
   s.params.map fun p => (p.1, match p.2.1 with
-    | .real => Val.num 0
+    | .real => if p.1 = "V_ref" then Val.num 1 else Val.num 0
     | .cplx => Val.cplx 0 0
     | .str => Val.str "cos")
 
 /-- **C19 (boundary).**  The value exactly 0 is accepted by every constructor for every
-parameter. -/
+parameter other than the rated voltage. -/
 theorem C19_zero_accepted :
     ∀ s ∈ ctorSpecs, (s.construct (some "x") (some ["a", "b"]) (zeroArgs s)).toOption.isSome = true := by
   decide +kernel
@@ -477,6 +498,45 @@ theorem C19_unknown_query_wrappers (N : Net String GQ) (x : List GQ) (q : Quanti
     (h : N.quantity x q id = .error e) (peak : Bool) (r2 : Rat) :
     dcGet N x q id = .error e ∧ cxGet peak r2 N x q id = .error e := by
   simp [dcGet, cxGet, h, bind, Except.bind]
+
+/-! ### time- and frequency-domain solutions: the identifier is validated before the (possibly
+empty) list of single-frequency solutions is touched -/
+
+/-- `_require_component(circuit, id)` (Circuit/solution.py): the id of a non-ground component -/
+def requireComponent (cs : List Component) (id : String) : Except Err Unit :=
+  if id ∈ (cs.filter (·.kind ≠ "ground")).map (·.id) then .ok () else .error .keyError
+
+/-- `_require_node(circuit, id)`: a terminal of some component -/
+def requireNode (cs : List Component) (n : String) : Except Err Unit :=
+  if n ∈ cs.flatMap (·.nodes) then .ok () else .error .keyError
+
+/-- the kind of identifier each getter takes -/
+def getterKind (m : String) : String := if m = "get_potential" then "node" else "component"
+
+/-- **C19 (unknown query, time / frequency domain).**  Every getter of `TimeDomainSolution` and
+`FrequencyDomainSolution` validates its identifier first (generated table; `get_power` of the
+time-domain class through `get_voltage`), with the two membership tests of the shape modelled
+above — so an unknown id raises `KeyError` whatever the list of frequency components is, the
+empty list (passive circuit, complex sources only, `w_max` below the fundamental) included.
+(Until fix 38fda4c the getters summed over zero solutions and returned 0 / empty arrays.) -/
+theorem C19_unknown_query_guarded :
+    (∀ cls ∈ ["TimeDomainSolution", "FrequencyDomainSolution"],
+      ∀ m ∈ ["get_voltage", "get_current", "get_potential", "get_power"],
+        (cls, m, getterKind m) ∈ Gen.Sol.requireTable) ∧
+    Gen.Sol.requireDefined = ["_require_component", "_require_node"] ∧
+    (∀ (cs : List Component) (id : String), id ∉ (Spec.nonGround cs).map (·.id) →
+      requireComponent cs id = .error .keyError) ∧
+    (∀ (cs : List Component) (n : String), (∀ c ∈ cs, n ∉ c.nodes) → requireNode cs n = .error .keyError) := by
+  refine ⟨by decide, by decide, ?_, ?_⟩
+  · intro cs id h
+    have : id ∉ (cs.filter (fun c => decide (c.kind ≠ "ground"))).map (·.id) := h
+    unfold requireComponent
+    rw [if_neg this]
+  · intro cs n h
+    have : n ∉ cs.flatMap (·.nodes) := by
+      simp only [List.mem_flatMap, not_exists, not_and]
+      exact h
+    simp [requireNode, this]
 
 /-! ## an accepted description is stored unaltered -/
 
